@@ -853,6 +853,87 @@ def overcap_bytes(rng, gt, max_paths):
     return out
 
 
+# ---- scalars outside the DSDL range, also beyond the C storage type (Python ints are unbounded) -----------------------
+
+def _scalar_paths(e, path=()):
+    """Paths of integer / float leaves that are NOT array elements (fields of composites, also of composites inside arrays)."""
+    k = e[0]
+    if k == "d":
+        return _scalar_paths(e[2], path)
+    if k in "uif":
+        return [(path, e)]
+    out = []
+    if k in "al":
+        if e[1][0] in "snd":
+            out += _scalar_paths(e[1], path + (0,))
+    elif k in "sn":
+        for i, f in enumerate(e[1]):
+            out += _scalar_paths(f, path + (i,))
+    return out
+
+
+def _out_of_range(rng, e):
+    k, n = e[0], e[1]
+    if k == "u":
+        hi = (1 << n) - 1
+        return rng.choice([hi + 1, hi + 2, hi + 1 + rng.randrange(1 << n), (1 << G.storage_bits(n)), (1 << G.storage_bits(n)) + rng.randrange(1, 5000),
+                           1 << 64, (1 << 64) + 5, 3 * (hi + 1) + 7, -1, -(1 << 63) - 1, -rng.randrange(2, max(3, 1 << min(n, 60)))])
+    if k == "i":
+        lo, hi = -(1 << (n - 1)), (1 << (n - 1)) - 1
+        return rng.choice([hi + 1, lo - 1, hi + 1 + rng.randrange(1 << n), lo - 1 - rng.randrange(1 << n), 1 << (G.storage_bits(n) - 1), -(1 << (G.storage_bits(n) - 1)) - 1,
+                           (1 << n) + 3, 1 << 63, -(1 << 63) - 1, (1 << 64) + 1])
+    mx = {16: 65504.0, 32: 3.4028234663852886e38, 64: None}[n]
+    if mx is None:
+        return None
+    return rng.choice([1, -1]) * (rng.choice([65520.0, 1e6, 3.4028234663852886e38]) if n == 16 else rng.choice([3.4028235677973366e38, 1e39, 1.7976931348623157e308]))
+
+
+def _with_leaf(e, v, path, x):
+    k = e[0]
+    if k == "d":
+        return _with_leaf(e[2], v, path, x)
+    if not path:
+        return x
+    if k in "al":
+        if not v:
+            raise LookupError("empty array on the path")
+        return [_with_leaf(e[1], v[0], path[1:], x)] + list(v[1:])
+    if k == "s":
+        return [_with_leaf(f, y, path[1:], x) if i == path[0] else y for i, (f, y) in enumerate(zip(e[1], v))]
+    if k == "n":
+        if v[0] != path[0]:
+            raise LookupError("another union option is selected")
+        return (v[0], _with_leaf(e[1][v[0]], v[1], path[1:], x))
+    raise LookupError("no such path")
+
+
+def out_of_range_scalar_values(rng, gt, n):
+    """In-range values in which 1-3 scalar (non-array-element) number fields are OUTSIDE the DSDL range of the field: just
+    outside, outside the C storage type (70000 for uint16, 2**31 for int32, 2**64, negative for unsigned), both cast modes,
+    standard and non-standard widths.  Meant for targets whose scalars are unbounded (Python)."""
+    e = gt.expr
+    leaves = _scalar_paths(e)
+    out = []
+    if not leaves:
+        return out
+    for _ in range(4 * n):
+        if len(out) >= n:
+            break
+        v = G.gen_value(rng, e, oob=False)
+        done = 0
+        for path, leaf in rng.sample(leaves, min(len(leaves), rng.randint(1, 3))):
+            x = _out_of_range(rng, leaf)
+            if x is None:
+                continue
+            try:
+                v, done = _with_leaf(e, v, path, x), done + 1
+            except LookupError:       # the leaf is not part of this value (other union option, empty array)
+                continue
+        if done:
+            out.append(v)
+    return out
+
+
 # ---- NaNs on the wire by bit pattern -------------------------------------------------------------------------------
 
 NAN_WIRE = {16: [0x7C01, 0xFC01, 0x7DFF, 0x7E00, 0xFE00, 0x7FFF, 0x7C80, 0x7D00],
